@@ -656,6 +656,9 @@ public:
     if (const auto* R = dyn_cast<CXXForRangeStmt>(St)) {
       o["k"] = "rangefor";
       o["var"] = varDecl(R->getLoopVariable());
+      // the type of *begin before the implicit conversion to the loop variable's type (`for (const double c : list_of_long_double)`)
+      if (const VarDecl* LV = R->getLoopVariable())
+        if (const Expr* In = LV->getInit()) o["elt"] = T(In->IgnoreParenImpCasts()->getType());
       o["range"] = expr(R->getRangeInit());
       o["body"] = stmt(R->getBody());
       return std::move(o);
